@@ -304,8 +304,15 @@ func VH_C09_ReencodePairs() {
 		k := vrt.Choose("pair", 0, len(ds)-1)
 		i, j = k, (k*5+3)%len(ds)
 	} else {
+		// every shape first, 17 partners (16 spread over the list + the derived one); the full
+		// square (150k jobs) takes over an hour
 		i = vrt.Choose("first", 0, len(ds)-1)
-		j = vrt.Choose("second", 0, len(ds)-1)
+		k := vrt.Choose("second", 0, 16)
+		if k == 16 {
+			j = (i*5 + 3) % len(ds)
+		} else {
+			j = (k*len(ds)/16 + k) % len(ds)
+		}
 	}
 	// known finding C09-F1: a foreign descriptor that FOLLOWS a segmentation descriptor is re-emitted before it
 	known := !ds[i].foreign && ds[j].foreign
